@@ -62,6 +62,8 @@ def command_text(snap, t):
     nodes = snap["nodes"]
     lab = label(t)
     L = ['echo %s >> "$VTRACE"' % q("S " + lab)]
+    if t.get("prelude"):
+        L.append(t["prelude"])
     if t["beh"] == "f":
         L.append("exit 3")
     depouts = []
@@ -108,6 +110,8 @@ def command_text(snap, t):
             L.append('rm -f "$GROG_WORKSPACE_ROOT/ext"/%s' % q(ext_name(t)))
         else:
             L.append('mkdir -p "$GROG_WORKSPACE_ROOT/ext"; touch "$GROG_WORKSPACE_ROOT/ext"/%s' % q(ext_name(t)))
+    if t.get("sleep_after"):
+        L.append(t["sleep_after"])          # after the outputs are in place (e.g. "sleep 3 & wait $!")
     if t["beh"] == "a":
         L.append("exit 3")
     L.append('echo %s >> "$VTRACE"' % q("E " + lab))
